@@ -629,7 +629,11 @@ var c17UnkTemplates = func() []string {
 		"iif($X, 1, 2)", "iif(true, $X, 2)", "iif(false, 1, $X)", "%ints.where($X = 1)", "%ints.select($X)", "%ints.all($X = 1)", "%ints.exists($X = 1)",
 		"true and $X", "false or $X", "true implies $X", "true xor $X", "$X and true", "$X or false", "$X implies true", "$X xor true"}
 	for _, op := range []string{"+", "-", "*", "/", "div", "mod", "&", "=", "!=", "<", "<=", ">", ">=", "|", "in", "contains"} {
-		out = append(out, "$X "+op+" 1", "1 "+op+" $X")
+		partner := "1"
+		if op == "&" {
+			partner = "'a'" // a partner the operator accepts: the only possible error is the variable's
+		}
+		out = append(out, "$X "+op+" "+partner, partner+" "+op+" $X")
 	}
 	ph := placeholderFuncs()
 	for _, f := range fnSpecs {
@@ -698,6 +702,18 @@ func c17RunUnk(ctx *Ctx, c c17UnkCase) {
 	}
 	if c.Known {
 		return // control runs only show the templates are otherwise evaluable (see class outcome)
+	}
+	// how many contexts would fail anyway with an EMPTY value in the hole (what a swallowed
+	// error turns into)?  There the unknown variable's error is indistinguishable from the other.
+	kv := fnVars()
+	kv["nope"] = system.Collection{}
+	if ctl := evalWith(src, fixtureInput(fixturePatient()), kv, compopts.WithExperimentalFuncs()); ctl.Err != nil {
+		ctx.Count("unknown_variable_context_fails_anyway")
+		if len(c.Tpl) == 1 {
+			ctx.Count("masked:" + c.Tpl[0])
+		}
+	} else {
+		ctx.Count("unknown_variable_context_discriminates")
 	}
 	if out.Err == nil {
 		ctx.Fail("unknown variable: an expression that must evaluate an unknown variable yields a value instead of an error (innermost context: "+c17UnkShape(c.Tpl[0])+")", fmt.Sprintf("%s → %s", src, renderColl(out.Coll)))
@@ -799,7 +815,7 @@ func c17RunComp(ctx *Ctx, c c17CompCase) {
 
 func TestC17(t *testing.T) {
 	r := newRec("C17",
-		"evaluate-option cases: lists of 0..4 EnvVariable options (+ optionally OverrideTime) over {System value, element, resource, collection, empty collection, nested collection, duplicate name, predefined name context/ucum, unsupported Go int/string/struct/nil, unsupported value nested one and two levels inside collections, generated collection shapes (1..5 items per level, ≤ 3 levels, supported and unsupported items at any position)} in drawn order, with a program that references one of the variables at the root, inside select/where criteria, inside a custom-function argument, or %context/%ucum/%nope; instrumented custom functions count invocations and record input and arguments; an enumeration stage covers all orders of all lists of length ≤ 2 (quick) / ≤ 3 (thorough) over 12 option kinds.  compile-option cases: four well-typed functions plus 0..4 of {good 0/1/2-ary, proto-typed, wrong first parameter, wrong results, non-function, no parameters, variadic, built-in name, duplicate name} in rotated order × 15 call shapes (right/wrong argument types and counts, call sites at the root, in select, in where) × {returns collection, returns wrapped sentinel error, returns empty}.  non-trivial = ≥ 2 options with an invalid one among valid ones, or a variable referenced below the root, or a custom function call; distinct = FNV-64 of (options, program).  Nested-call cases: generated call trees (depth ≤ 4) over three pure custom functions of 1, 2 and 3 Integer parameters, at the root or once per item inside select(), evaluated twice: the result must equal the harness-side evaluation of the same tree.  Unknown-variable cases: %nope placed in every context that must evaluate it (either side of every operator, receiver and each argument of every implemented table function with well-typed other operands, criteria over a non-empty receiver, the taken iif branch), alone and nested 2..3 deep: Evaluate must return an error; the same programs with the variable supplied are control runs",
+		"evaluate-option cases: lists of 0..4 EnvVariable options (+ optionally OverrideTime) over {System value, element, resource, collection, empty collection, nested collection, duplicate name, predefined name context/ucum, unsupported Go int/string/struct/nil, unsupported value nested one and two levels inside collections, generated collection shapes (1..5 items per level, ≤ 3 levels, supported and unsupported items at any position)} in drawn order, with a program that references one of the variables at the root, inside select/where criteria, inside a custom-function argument, or %context/%ucum/%nope; instrumented custom functions count invocations and record input and arguments; an enumeration stage covers all orders of all lists of length ≤ 2 (quick) / ≤ 3 (thorough) over 12 option kinds.  compile-option cases: four well-typed functions plus 0..4 of {good 0/1/2-ary, proto-typed, wrong first parameter, wrong results, non-function, no parameters, variadic, built-in name, duplicate name} in rotated order × 15 call shapes (right/wrong argument types and counts, call sites at the root, in select, in where) × {returns collection, returns wrapped sentinel error, returns empty}.  non-trivial = ≥ 2 options with an invalid one among valid ones, or a variable referenced below the root, or a custom function call; distinct = FNV-64 of (options, program).  Nested-call cases: generated call trees (depth ≤ 4) over three pure custom functions of 1, 2 and 3 Integer parameters, at the root or once per item inside select(), evaluated twice: the result must equal the harness-side evaluation of the same tree.  Unknown-variable cases: %nope placed in every context that must evaluate it (either side of every operator, receiver and each argument of every implemented table function with well-typed other operands, criteria over a non-empty receiver, the taken iif branch), alone and nested 2..3 deep: Evaluate must return an error; the same programs with the variable supplied are control runs; counters unknown_variable_context_discriminates / _fails_anyway say in how many contexts an empty value in the hole evaluates without error (only there can a swallowed error be told apart)",
 		"nested collections as variable values and variadic functions are executed for totality only (the statement does not define them)")
 	runProperty(t, r,
 		Stage[c17EvalCase]{Name: "option-orders", Enum: c17EnumEval, Run: c17RunEval},
